@@ -22,6 +22,8 @@ pub struct DiffOpts {
     /// properties that own IR consistency
     pub props_ir: &'static [&'static str],
     pub fuel: u64,
+    /// applied to both outputs before they are compared (e.g. JSON canonicalisation)
+    pub normalise: Option<fn(&[u8]) -> Vec<u8>>,
 }
 
 impl Default for DiffOpts {
@@ -33,6 +35,7 @@ impl Default for DiffOpts {
             props_reject: &[],
             props_ir: &["C03"],
             fuel: FUEL,
+            normalise: None,
         }
     }
 }
@@ -229,7 +232,10 @@ pub fn differential(prog: &Program, site: &str, family: &str, case: &Value, ctx:
     rep.nontrivial_key = Some(text.clone());
     rep.outcome = Some(format!("{}|{}", lossy(&go_obs.stdout), end_tag(&go_obs.end)));
     rep.tag(format!("go-end:{}", end_tag(&go_obs.end)));
-    let mut agree = go_obs == ref_obs;
+    let mut agree = match opts.normalise {
+        Some(f) => go_obs.end == ref_obs.end && f(&go_obs.stdout) == f(&ref_obs.stdout),
+        None => go_obs == ref_obs,
+    };
     if !agree {
         let (stripped, changed) = strip_float_verb(&go_obs.stdout);
         let class = if changed && stripped == ref_obs.stdout && go_obs.end == ref_obs.end {
